@@ -10,14 +10,15 @@
 (* is the one configured when the connection was made.                       *)
 EXTENDS FsBase
 
-AllDevs == {"C08.nul_character_rejected"}
+AllDevs == {"C08.nul_character_rejected", "C08.qmark_merge_rejected"}
 
 Styles == {"pyformat", "format", "qmark"}
 StrClasses == {"plain", "quote", "dquote", "bslash", "newline", "percent", "pct_s", "pct_named", "dollar", "qmarkch", "semi", "dash",
                "block", "inject", "unicode", "empty", "nul"}
 OtherClasses == {"int", "bigint", "negint", "float", "decimal", "bool", "none", "date", "datetime", "time"}
 Classes == StrClasses \cup OtherClasses
-Positions == {"values", "where", "inlist", "select", "like"}
+\* "merge": the value bound into MERGE ... USING (SELECT %s AS v) ... WHEN NOT MATCHED THEN INSERT: stored as itself
+Positions == {"values", "where", "inlist", "select", "like", "merge"}
 \* "listparam": ONE placeholder bound to a Python list, "v IN (%s)" (client-side styles only; the elements are escaped and quoted
 \* one by one and joined with commas)
 \* The connector's own converter renders the elements of a list with quote(escape(v)) only - it has no list form for Decimal,
@@ -42,16 +43,23 @@ Steps(st, op, D) ==
          IF op.style # st.conn THEN {R(st, Obs("err", FALSE, 0, "ok")), R(st, Obs("ok", FALSE, 0, "ok"))}     \* not constrained
          ELSE {R(st, Obs("ok", TRUE, op.n, "ok"))}
               \cup (IF "C08.nul_character_rejected" \in D /\ op.vc = "nul" THEN {R(st, Obs("err", FALSE, 0, "ok"))} ELSE {})
+              \* as built the parameters of a MERGE are handed to every statement it is carried out as; with server-side (qmark)
+              \* binding all but one of those have no placeholder and the engine rejects the call
+              \cup (IF "C08.qmark_merge_rejected" \in D /\ op.pos = "merge" /\ op.style = "qmark" THEN {R(st, Obs("err", FALSE, 0, "ok"))} ELSE {})
 
 CONSTANTS ClassesUsed
-Forms(style) == IF style = "pyformat" THEN {"seq", "dict"} ELSE {"seq"}
+\* "dictre": named parameters given as a dict object that was already used for an earlier execute (the caller's dict is the
+\* caller's: binding must not change it)
+Forms(style) == IF style = "pyformat" THEN {"seq", "dict", "dictre"} ELSE {"seq"}
+\* executemany batches whose column holds values of different Python types, in this order (each set is converted on its own)
+MixedClasses == {"mix_none_first", "mix_int_float", "mix_str_none"}
 Ops(st) ==
   [k : {"setglobal"}, style : Styles]
   \cup (IF st.conn = "none" THEN [k : {"connect"}] ELSE {})
   \cup (IF st.conn = "none" THEN {} ELSE
         UNION {UNION {[k : {"bind"}, style : {st.conn}, form : Forms(st.conn), pos : PositionsOf(st.conn, vc), vc : {vc}, n : {1}, cur : {"same", "fresh"}]
                       : vc \in ClassesUsed \cap Classes}
-               \cup [k : {"bind"}, style : {st.conn}, form : {"many"}, pos : {"values"}, vc : ClassesUsed \cap Classes, n : {3}, cur : {"same"}]})
+               \cup [k : {"bind"}, style : {st.conn}, form : {"many"}, pos : {"values"}, vc : (ClassesUsed \cap Classes) \cup MixedClasses, n : {3}, cur : {"same"}]})
 
 StepOk(st, op, r) ==
   op.k = "bind" /\ op.style = st.conn => r.obs.res = "ok" /\ r.obs.same /\ r.obs.rows = op.n /\ r.obs.others = "ok"
